@@ -43,6 +43,7 @@ class Ctx:
         self.builds = {}
         self.kf = load_known_findings()
         self.kf_seen = set()
+        self.timing = []
 
     def cleanup(self):
         shutil.rmtree(self.scratch, ignore_errors=True)
@@ -116,6 +117,7 @@ class Ctx:
             rc, out = sh([hx, driver, tier, str(self.seed), path, ex], timeout=timeout)
             return k, path, rc, out
         paths = []
+        t0 = time.time()
         with cf.ThreadPoolExecutor(max_workers=NCPU) as ex:
             for k, path, rc, out in ex.map(one, range(shards)):
                 if rc == 124:
@@ -125,14 +127,17 @@ class Ctx:
                 elif rc != 0:
                     raise Machinery(f'driver {driver} shard {k} failed rc={rc}: {out[-1500:]}')
                 paths.append(path)
+        self.timing.append((f'driver {driver} x{shards}' + (' ' + extra if extra else ''), round(time.time() - t0, 1)))
         return paths
 
     # ---------------------------------------------------------------- trace validation (R1)
     def validate(self, paths, pure=False, trace_module='MPIRTrace', cfg='MPIRTrace.cfg', timeout=1500, keep=False):
         """validates every trace file; rejected executions are isolated, re-validated alone, matched against the
         known findings and reported; validation continues with the rest of the file."""
+        t0 = time.time()
         with cf.ThreadPoolExecutor(max_workers=NCPU) as ex:
             list(ex.map(lambda p: self._validate_file(p, pure, trace_module, cfg, timeout), paths))
+        self.timing.append((f'validate {len(paths)} files' + (' (pure)' if pure else ''), round(time.time() - t0, 1)))
         if not keep:
             for p in paths:
                 try: os.remove(p)
@@ -225,14 +230,16 @@ class Ctx:
             key = kf['id']
             self.known.append((kf['property'], kf['id'], kf['text']))
             return
-        prop = attribute_property(ev, self.prop)
+        prop = self.prop
         name = f'{self.prop}-{self.tier}-{hashlib.md5(("".join(execu)).encode()).hexdigest()[:12]}.ndjson'
+        if len(self.violations) >= 8:           # keep disk and output bounded: further rejections are counted, not saved
+            self.violations.append((prop, 'further rejection (not saved): ' + line[:160], self.violations[0][2])); return
         rp = self.save_replay(name, '\n'.join(execu) + '\n')
         what = f'rejected at line {stuck} of the execution: {line[:300]}'
         self.violation(prop, what, rp)
 
     def save_replay(self, name, text):
-        d = os.path.join(VERIF, 'replays', self.prop)
+        d = os.path.join(os.environ.get('VERIF_REPLAY_DIR', os.path.join(VERIF, 'replays')), self.prop)
         os.makedirs(d, exist_ok=True)
         p = os.path.join(d, name)
         open(p, 'w').write(text)
@@ -263,7 +270,7 @@ class Ctx:
             distinct_calls_multi_limb=len(self.nontrivial),
             functions_exercised=len(self.funcs), calls_per_function=dict(sorted(self.funcs.items())),
             known_findings_reproduced=sorted({k[1] for k in self.known}),
-            notes=self.notes,
+            notes=self.notes, timing=self.timing,
         )
         if extra_cov: cov.update(extra_cov)
         ev = dict(property_id=self.prop, tier=self.tier, seed=self.seed, level=level, coverage=cov,
@@ -272,15 +279,17 @@ class Ctx:
                       'the Java accelerators of BigZ equal their TLA+ definitions (checked by L0Equiv on samples; pure-mode re-validation of size-capped executions)',
                       'the recorder (harness/rec.c) reports the library state faithfully'],
                   wall_s=wall, violations=len(self.violations))
-        os.makedirs(os.path.join(VERIF, 'evidence'), exist_ok=True)
-        json.dump(ev, open(os.path.join(VERIF, 'evidence', f'{self.prop}.json'), 'w'), indent=1, default=str)
+        evd = os.environ.get('VERIF_EVIDENCE_DIR', os.path.join(VERIF, 'evidence'))
+        os.makedirs(evd, exist_ok=True)
+        json.dump(ev, open(os.path.join(evd, f'{self.prop}.json'), 'w'), indent=1, default=str)
         seen = set()
         for p, kid, text in self.known:
             if (p, kid) in seen: continue
             seen.add((p, kid)); print(f'KNOWN-FINDING: property={p} id={kid} {text}')
-        for p, text, rp in self.violations:
+        for p, text, rp in self.violations[:8]:
             print(f'VIOLATION property={p} replay={rp}')
-            print(f'  {text}')
+            print(f'  {text[:400]}')
+        if len(self.violations) > 8: print(f'  ... and {len(self.violations) - 8} further rejected executions')
         print(f'{self.prop} {self.tier}: {self.trace_stats["calls"]} calls in {self.trace_stats["executions"]} executions validated, '
               f'{sum(m["states"] for m in self.models)} model states, {len(self.violations)} violations, {wall}s')
         self.cleanup()
